@@ -252,6 +252,13 @@ def check_case(case):
 
     kind, combos, fn_args, cs, argnames, constants, f = setup_case(case)
     d = core.fresh_dir("c04")
+    # (the crop's location may itself contain the words the crop's own
+    # sub-directories and files are named with)
+    sub = [None, None, "results", "my batches/xyz-result-1"][
+        core.pick([case, "dir"], 4)]
+    if sub:
+        d = os.path.join(d, sub)
+        os.makedirs(d)
     vio = []
 
     def key(sym):
